@@ -37,11 +37,13 @@ def c_strlist(l):
 
 
 def renderable(v):
-    """can this Python value be written as a pv term (JSON values, str keys)"""
+    """can this Python value be written as a pv term (JSON values, str keys; no deep / long values)"""
+    if S.has_deep(v):
+        return False
     try:
         c_pv(v)
         return True
-    except TypeError:
+    except (TypeError, RecursionError):
         return False
 
 
@@ -131,11 +133,11 @@ def run_streams(ctx, dist):
     for k, v in sorted(n_by.items()):
         dist["stream %s %s" % k] = v
     # distinct inputs: by (entry, value) digest, cheap
-    ctx.distinct.update({hash((c[0], repr(c[1]), c[2], c[3])) .to_bytes(8, "big", signed=True) for c in calls})
+    ctx.distinct.update({hash((c[0], S.short(c[1], 100000), c[2], c[3])) .to_bytes(8, "big", signed=True) for c in calls})
     for (entry, exc, fn), (size, value, keyname, reg, tag, loc, msg) in sorted(escapes.items(), key=lambda kv: kv[0]):
         ctx.violation({"entry": entry, "exc": exc, "where": fn},
                       "%s(%s, key=%s, registry=%s) escapes with %s (%s) from %s [%s]; input kind %s" % (
-                          entry, repr(value)[:160], keyname, reg, exc, msg, fn, loc, tag),
+                          entry, S.short(value, 160), keyname, reg, exc, msg, fn, loc, tag),
                       {"entry": entry, "value": S.enc_value(value), "key": keyname, "reg": reg, "where": fn, "loc": loc})
     return calls, escapes
 
@@ -420,7 +422,7 @@ def entry_cases(ctx, calls, dist):
                 continue
             cases.append(term); meta.append(("EJws", entry, keyname, reg, tag, S.enc_value(value)))
             dist["entry:" + entry] = dist.get("entry:" + entry, 0) + 1
-            ctx.note_case(("EJws", entry, keyname, reg, repr(value)[:300]))
+            ctx.note_case(("EJws", entry, keyname, reg, S.short(value, 300)))
     return cases, meta
 
 
@@ -692,7 +694,7 @@ def jwe_entry_cases(ctx, calls, dist, rec):
             continue
         cases.append(term); meta.append(("EJwe", entry, keyname, reg, tag, S.enc_value(value)))
         dist["entry:" + entry] = dist.get("entry:" + entry, 0) + 1
-        ctx.note_case(("EJwe", entry, keyname, reg, repr(value)[:300]))
+        ctx.note_case(("EJwe", entry, keyname, reg, S.short(value, 300)))
     dist["entry:jwe skipped (a primitive was called twice)"] = skipped
     return cases, meta
 
